@@ -200,14 +200,24 @@ class Alphabet:
         return iv[0][0]
 
     def classes_of_intervals(self, iv) -> frozenset:
+        """The classes that make up the given set of code points.  The set must be a union of classes (the
+        alphabet is built from every character set the analysed code mentions); a class that straddles the
+        set's border means the alphabet is too coarse for the question and is reported, not approximated."""
         iv = sorted(iv)
         out = set()
         for i, mem in enumerate(self.members):
-            lo = mem[0][0]
-            for a, b in iv:
-                if a <= lo <= b:
-                    out.add(i)
-                    break
+            states = set()
+            for a, b in mem:
+                if any(p <= a and b <= q for p, q in iv):
+                    states.add(True)
+                elif all(q < a or p > b for p, q in iv):
+                    states.add(False)
+                else:
+                    states.add(None)
+            if states == {True}:
+                out.add(i)
+            elif states != {False}:
+                raise Unsupported(f"character set {iv[:4]}.. is not a union of alphabet classes (class of U+{mem[0][0]:04X} straddles it)")
         return frozenset(out)
 
     def classes_of_chars(self, chars: str) -> frozenset:
